@@ -280,9 +280,51 @@ func rollbackBesideCommit(swallow bool) func() *eng.SchedInstance {
 	}
 }
 
+// filterObserver: one transaction sets two bool columns of one row (and moves two
+// rows of one block into an index); an observer evaluates filter algebra over them.
+// Whatever the interleaving, the observer sees none or all of the transaction.
+func filterObserver() *eng.SchedInstance {
+	cols := []model.ColDef{{Name: "p", Kind: "bool"}, {Name: "q", Kind: "bool"}, {Name: "n", Kind: "int"}}
+	sw := newSWorld(model.Config{Cols: cols}, []model.Write{{Col: "n", V: model.Val{N: 1}}})
+	w := sw.w
+	w.SeedReplay(map[uint32][]model.Write{R0 + 1: {{Col: "n", V: model.Val{N: 1}}}})
+	w.C.CreateIndex("big", "n", func(r columnReader) bool { return r.Int() > 5 })
+	w.Commits, w.Emitters = nil, nil
+	writer := func() {
+		w.C.Query(func(txn *column.Txn) error {
+			txn.QueryAt(R0, func(r column.Row) error { r.SetBool("p", true); r.SetBool("q", true); r.SetInt("n", 9); return nil })
+			return txn.QueryAt(R0+1, func(r column.Row) error { r.SetInt("n", 9); return nil })
+		})
+	}
+	var pNotQ, qNotP, big int
+	observer := func() {
+		w.C.Query(func(txn *column.Txn) error { pNotQ = txn.With("p").Without("q").Count(); return nil })
+		w.C.Query(func(txn *column.Txn) error { qNotP = txn.With("q").Without("p").Count(); return nil })
+		w.C.Query(func(txn *column.Txn) error { big = txn.With("big").Count(); return nil })
+	}
+	return &eng.SchedInstance{
+		Threads: []func(){writer, observer},
+		Close:   w.Close,
+		Check: func(res *vsched.Result) (string, []eng.Violation) {
+			vs := threadPanics(res, []string{"W", "O"})
+			out := fmt.Sprintf("p&^q=%d q&^p=%d |big|=%d", pNotQ, qNotP, big)
+			if pNotQ != 0 || qNotP != 0 {
+				vs = append(vs, eng.Violation{Assert: "atomic/all-or-nothing", Witness: "a filter sees one column change of a transaction without the other (same row, same block)",
+					Detail: fmt.Sprintf("the transaction sets p and q of row %d together; observer counted With(p).Without(q)=%d, With(q).Without(p)=%d", R0, pNotQ, qNotP)})
+			}
+			if big != 0 && big != 2 {
+				vs = append(vs, eng.Violation{Assert: "atomic/all-or-nothing", Witness: "an index shows one of two rows that one transaction moved into it (same block)",
+					Detail: fmt.Sprintf("the transaction raises n of rows %d and %d together; observer counted With(big)=%d", R0, R0+1, big)})
+			}
+			return out, vs
+		},
+	}
+}
+
 func init() {
 	c02SchedUnits = func(tier string) []eng.Unit {
 		var scs []scenario
+		scs = append(scs, scenario{"two-columns+index-in-one-block||filter-observer", 3, filterObserver})
 		rb := 3
 		if tier != "quick" {
 			rb = 4
